@@ -254,7 +254,10 @@ ParseFault(i, d, site, exc) ==
     /\ UNCHANGED <<live, plug, active, opts, rr, ctx, env>>
     /\ Log([op |-> "fault", i |-> i, doc |-> d, site |-> site, exc |-> exc])
 
-Excs == {"ValueError", "KeyError", "RecursionError", "KeyboardInterrupt"}
+(* exception types user code may raise - among them the ones library code is most tempted to catch and reinterpret  *)
+(* (TypeError: arity fallbacks, AttributeError: duck typing, IndexError / StopIteration: scanning loops)             *)
+Excs == {"ValueError", "KeyError", "RecursionError", "KeyboardInterrupt", "TypeError", "AttributeError", "IndexError",
+         "StopIteration"}
 
 Next ==
     \/ \E i \in Inst, p \in Presets, u \in Updates : Construct(i, p, u)
